@@ -68,13 +68,19 @@ class Contract:
             base.extend(lines)
             return
         cur = None
+        at = None       # where the next line of the current overlay group goes
         for item in lines:
             kw = item[1].strip()
             if kw in self.GROUP_KW:
                 cur = kw
+                at = None
                 continue
             if cur is None:
                 base.append(item)
+                continue
+            if at is not None:
+                base.insert(at, item)
+                at += 1
                 continue
             # the end of the base's group `cur`
             pos = None
@@ -95,11 +101,16 @@ class Contract:
                 # the base has no such group: requires goes first, anything else last (before decreases)
                 if cur == 'requires':
                     base[0:0] = [(item[0], '    requires', item[2]), item]
+                    at = 2
                 else:
                     dk = next((k for k, b in enumerate(base) if (b[1].strip().split() or [''])[0] == 'decreases'), len(base))
+                    while dk > 0 and base[dk - 1][1].strip().startswith('//'):
+                        dk -= 1
                     base[dk:dk] = [(item[0], '        ' + cur, item[2]), item]
+                    at = dk + 2
             else:
                 base.insert(pos, item)
+                at = pos + 1
 
     def _read(self, path, ofile):
         if not os.path.exists(path):
